@@ -78,12 +78,12 @@ func checkC14Order(c *Ctx) {
 		z := func(n string) string { return "0 == " + fld(n) }
 		cf.checkTable("order.compare-table", []caseRow{
 			{name: "both-invalid", truth: map[string]bool{ok0: F, ok1: F}, want: []string{"0"}},
-			{name: "invalid-vs-valid", truth: map[string]bool{ok0: F, ok1: T}, want: []string{"-1"}},
-			{name: "valid-vs-invalid", truth: map[string]bool{ok0: T, ok1: F}, want: []string{"1"}},
-			{name: "major-differs", truth: map[string]bool{ok0: T, ok1: T, z("major"): F}, want: []string{fld("major")}},
-			{name: "minor-differs", truth: map[string]bool{ok0: T, ok1: T, z("major"): T, z("minor"): F}, want: []string{fld("minor")}},
-			{name: "patch-differs", truth: map[string]bool{ok0: T, ok1: T, z("major"): T, z("minor"): T, z("patch"): F}, want: []string{fld("patch")}},
-			{name: "core-equal", truth: map[string]bool{ok0: T, ok1: T, z("major"): T, z("minor"): T, z("patch"): T}, want: []string{pre}},
+			{name: "invalid-vs-valid", truth: map[string]bool{ok0: F, ok1: T, "?p0 == p1": F}, want: []string{"-1"}},
+			{name: "valid-vs-invalid", truth: map[string]bool{ok0: T, ok1: F, "?p0 == p1": F}, want: []string{"1"}},
+			{name: "major-differs", truth: map[string]bool{ok0: T, ok1: T, "?p0 == p1": F, z("major"): F}, want: []string{fld("major")}},
+			{name: "minor-differs", truth: map[string]bool{ok0: T, ok1: T, "?p0 == p1": F, z("major"): T, z("minor"): F}, want: []string{fld("minor")}},
+			{name: "patch-differs", truth: map[string]bool{ok0: T, ok1: T, "?p0 == p1": F, z("major"): T, z("minor"): T, z("patch"): F}, want: []string{fld("patch")}},
+			{name: "core-equal", truth: map[string]bool{ok0: T, ok1: T, "?p0 == p1": F, z("major"): T, z("minor"): T, z("patch"): T}, want: []string{pre}},
 		}, "semver.Compare must order invalid versions below valid ones and compare major, then minor, then patch numerically, then the pre-release; nothing else")
 		// build metadata is ignored
 		usesBuild := false
@@ -102,8 +102,8 @@ func checkC14Order(c *Ctx) {
 		show(cf)
 		l := "cmp.Compare(len(p0),len(p1))"
 		cf.checkTable("order.compareInt-table", []caseRow{
-			{name: "length-differs", truth: map[string]bool{"0 == " + l: F}, want: []string{l}},
-			{name: "same-length", truth: map[string]bool{"0 == " + l: T}, want: []string{"cmp.Compare(p0,p1)"}},
+			{name: "length-differs", truth: map[string]bool{"0 == " + l: F, "?p0 == p1": F}, want: []string{l}},
+			{name: "same-length", truth: map[string]bool{"0 == " + l: T, "?p0 == p1": F}, want: []string{"cmp.Compare(p0,p1)"}},
 		}, "numeric fields (no leading zeros) compare by length first and only then digit by digit")
 	}
 
